@@ -635,6 +635,7 @@ fn rt_real_chain(ctx: &mut Ctx, spec: &HistSpec, counting: bool) -> V {
         let built = chain::build_history(spec).await;
         let mut twin_wire = Node::new(spec.ncfg, 0);
         let mut twin_disk = Node::new(spec.ncfg, 0);
+        let mut twin_restore = Node::new(spec.ncfg, 0);
         let scratch_io = MemIO::new();
         let mut scratch = Storage::new(Box::new(scratch_io.clone()));
         let mut res = vec![];
@@ -683,8 +684,40 @@ fn rt_real_chain(ctx: &mut Ctx, spec: &HistSpec, counting: bool) -> V {
                 }
                 Err(_) => res.push(("block_file", "decode_err")),
             }
+            // pruned, then restored from its file (what a reorganisation over an old block does): the
+            // restored block is used as it is, so it has to be the block that was pruned
+            let mut p = b.clone();
+            p.downgrade_block_to_block_type(BlockType::Pruned, false).await;
+            if !p.upgrade_block_to_block_type(BlockType::Full, &scratch, false).await {
+                res.push(("block_restore", "restore_failed"));
+            } else {
+                if p.hash != b.hash || !block_eq(&b, &p) || p.serialize_for_net(BlockType::Full) != e {
+                    res.push(("block_restore", "decode_ne"));
+                }
+                let derived = |x: &Block| -> Vec<([u8; 32], Vec<[u8; 59]>, u64, u64, u64)> {
+                    x.transactions
+                        .iter()
+                        .map(|t| {
+                            (
+                                t.hash_for_signature.unwrap_or([0; 32]),
+                                t.from.iter().chain(t.to.iter()).map(|sl| sl.utxoset_key).collect(),
+                                t.total_fees,
+                                t.total_work_for_me,
+                                t.cumulative_fees,
+                            )
+                        })
+                        .collect()
+                };
+                if derived(&p) != derived(&b) || p.total_fees != b.total_fees || p.total_work != b.total_work {
+                    res.push(("block_restore", "derived_fields_ne"));
+                }
+                let r = twin_restore.add(p).await;
+                if crate::world::res_str(&r) != "added_lc" {
+                    res.push(("block_restore", "disk_verdict_ne"));
+                }
+            }
         }
-        let same = twin_wire.tip() == built.node.tip() && twin_disk.tip() == built.node.tip();
+        let same = twin_wire.tip() == built.node.tip() && twin_disk.tip() == built.node.tip() && twin_restore.tip() == built.node.tip();
         if !same {
             res.push(("real_block", "twin_tip_ne"));
         }
@@ -813,4 +846,37 @@ pub fn run(ctx: &mut Ctx) {
         }
     });
     let _ = Tier::Quick;
+}
+
+pub fn replay(ctx: &mut Ctx, v: &serde_json::Value) -> bool {
+    let case = v.get("case").cloned().unwrap_or(serde_json::Value::Null);
+    let check = v.get("check").and_then(|c| c.as_str()).unwrap_or("").to_string();
+    macro_rules! go {
+        ($t:ty, $f:expr) => {
+            match serde_json::from_value::<$t>(case.clone()) {
+                Ok(g) => {
+                    ctx.eval();
+                    let out: V = $f(ctx, &g);
+                    for (k, w) in out {
+                        ctx.violation(&k, w, json!({"check": check, "case": case}));
+                    }
+                    true
+                }
+                Err(_) => false,
+            }
+        };
+    }
+    match check.as_str() {
+        "slip" => go!(GSlip, |_c: &mut Ctx, g: &GSlip| guarded!("slip", rt_slip(g))),
+        "hop" => go!(GHop, |_c: &mut Ctx, g: &GHop| guarded!("hop", rt_hop(g))),
+        "transaction" => go!(GSignedTx, |_c: &mut Ctx, g: &GSignedTx| guarded!("transaction", rt_tx(g))),
+        "block" => go!(GBlock, |_c: &mut Ctx, g: &GBlock| guarded!("block", rt_block(g))),
+        "message" => go!(GMsg, |_c: &mut Ctx, g: &GMsg| guarded!("message", rt_msg(g))),
+        "misc" => go!((Vec<u8>, u64, u64, Vec<GSlip>, (u8, u8, u16), u8), |_c: &mut Ctx, g: &(Vec<u8>, u64, u64, Vec<GSlip>, (u8, u8, u16), u8)| guarded!("misc", rt_misc(g))),
+        "real_chain" => go!(HistSpec, |c: &mut Ctx, g: &HistSpec| match catch(|| rt_real_chain(c, g, false)) {
+            Outcome::Returned(v) => v,
+            Outcome::Panicked(site, msg) => panic_v("real_chain", &site, &msg),
+        }),
+        _ => false,
+    }
 }
